@@ -39,15 +39,15 @@ package edwards25519
 //@ globalinv [F:identity] elems(identity) && init(identity) && validc(identity) && cong(lv(identity.x), 0, P) && cong(lv(identity.y), lv(identity.z), P)
 //@ globalinv [F:generator] elems(generator) && init(generator) && validc(generator)
 
-// bounded: proved for up to 4 points (every call site in the package passes 1 or 2, the multi-scalar
+// bounded: proved for up to 6 points (every call site in the package passes 1 or 2, the multi-scalar
 // routines are themselves claimed for up to 3 terms); for longer slices the contract is assumed
 //@ func checkInitialized(points)
 //@   declassify branch 2 the is-zero-value test of a Point input: uninitialised inputs are rejected loudly (exempt)
 //@   declassify branch 3 the is-zero-value test of a Point input (exempt)
 //@   leak none
 //@   mode ring
-//@   entrysplit len(points) in 0..5
-//@   requires [bounded] len(points) < 5
+//@   entrysplit len(points) in 0..7
+//@   requires [bounded] len(points) < 7
 //@   panics exists i in 0..len(points): !init(points[i])
 //@   assigns nothing
 
@@ -1026,14 +1026,14 @@ package edwards25519
 //@   ensures [valid] gvalid(v)
 //@   ensures [value] pt(v) == smul(8, pt(p))
 
-// bounded: proved for up to 3 terms (all scalars and points symbolic, distinct storage)
+// bounded: proved for up to 5 terms (all scalars and points symbolic; distinct storage and the receiver as one of the points)
 //@ func (*Point).MultiScalarMult(v, scalars, points)
 //@   leak none
 //@   mode group
-//@   opt elemalias=v:points:3
-//@   entrysplit len(scalars) in 0..4
-//@   entrysplit len(points) in 0..4
-//@   requires [bounded] len(scalars) < 4 && len(points) < 4
+//@   opt elemalias=v:points:5
+//@   entrysplit len(scalars) in 0..6
+//@   entrysplit len(points) in 0..6
+//@   requires [bounded] len(scalars) < 6 && len(points) < 6
 //@   requires [scalars] forall j in 0..len(scalars): sinv(scalars[j])
 //@   requires [wf] forall j in 0..len(points): wf(points[j])
 //@   panics len(scalars) != len(points) || (exists j in 0..len(points): !init(points[j]))
